@@ -375,6 +375,7 @@ def run(ctx: Ctx) -> None:
     _memo.rule_elim_no_pivot(ctx, ['graphiq/circuit/ops.py', 'graphiq/backends/density_matrix/functions.py'])
     _memo.rule_subject_drift(ctx, ['graphiq/circuit/ops.py', 'graphiq/backends/density_matrix/functions.py'])
     _memo.rule_isinstance_on_class(ctx, ['graphiq/circuit/ops.py', 'graphiq/backends/density_matrix/functions.py'])
+    _memo.rule_zip_truncation(ctx, ['graphiq/circuit/ops.py', 'graphiq/backends/density_matrix/functions.py'])
     rule_phase_pivot(ctx)
     rule_clifford24(ctx)
     rule_order_wrapper(ctx)
